@@ -122,6 +122,23 @@ pub fn generate(tier: Tier, rng: &mut Rng) -> Vec<Case> {
         Tier::Thorough => 500_000,
     };
     let mut out = vec![];
+    // calls and names in the body of a macro nested inside another macro's body (two and three
+    // scopes below the root), against a context defining everything and against ones defining a
+    // random subset: the literal ranges make sure the innermost body is actually executed
+    for src in [
+        "[[1, 2], [3]].map(x, x.map(y, g(y)))", "[[1]].map(x, x.filter(y, size(x) > y))", "[1].map(x, [2].map(y, [3].map(e, h(x, y, e))))", "[[1]].all(x, x.exists(y, k(y) != null))",
+        "[1].map(x, [2].exists_one(y, y.g() != null))", "[1].map(x, [2].map(y, a))", "[1].map(x, [2].map(y, [3].map(e, b + c)))", "[1].exists(x, [2].all(y, .g(y) != null && d != null))",
+        "[[1]].map(x, x.map(y, m))", "[1].map(x, [2].map(y, x.h(y, .a)))", "[1].filter(x, [2].map(y, [3].filter(e, k() != null)).size() > 0)", "[1].map(x, [x].map(y, [y].map(e, size([e, a]))))",
+    ] {
+        let Ok(ast) = cel_parser::Parser::new().parse(src) else { continue };
+        for full in [true, true, false, false, false] {
+            let spec = gen_ctx(rng, full);
+            let mut c = Case::new("refexec", format!("{} {}", spec.to_sx().to_text(), expr_to_sx(&ast).to_text()));
+            c.src = Some(src.to_string());
+            c.tags = vec![if full { "all-defined" } else { "partial-ctx" }, "names", "nested-macro-bodies"];
+            out.push(c);
+        }
+    }
     while out.len() < n {
         let d = 1 + rng.below(6) as u32;
         let src = gen(rng, d);
